@@ -604,6 +604,17 @@ S2_ROWS = [n for n in ('LDR_imm_A1', 'STR_imm_A1', 'LDRB_imm_A1', 'STRB_imm_A1',
 
 def tweak_s2(rng, row, w, case):
     st_ = case['state']
+    if rng.random() < 0.4:
+        # both stages: the guest runs with its own stage-1 tables (short descriptors, built as for the one-stage plan) whose descriptor fetches and
+        # output addresses go through the stage-2 table; the pages holding the stage-1 tables are mapped by stage 2
+        tweak(rng, row, w, case)
+        st_['scr'] = 1
+        fate = gen.stage2_map(rng, case, extra_pages=range(TABLES[0] >> 12, (TABLES[0] + TABLES[1]) >> 12), keep_stage1=True)
+        case.setdefault('labels', []).append('s2-two-stages')
+        case.setdefault('labels', []).append('s2-data-page:' + fate)
+        st_['hcr'] = st_['hcr'] & ~((1 << 27) | (1 << 12))
+        st_['hsr'], st_['hdfar'], st_['hpfar'] = rng.getrandbits(32), rng.getrandbits(32), rng.getrandbits(28) << 4
+        return
     fate = gen.stage2_map(rng, case)
     case.setdefault('labels', []).append('s2-data-page:' + fate)
     f = row.extract(w)
